@@ -4,9 +4,10 @@ import numlib
 from fractions import Fraction as Fr
 
 PID = "C08"
-TARGETS = ["Run.vo", "Conv_proofs.vo"]
+TARGETS = ["Run.vo", "Conv_proofs.vo", "Float_proofs.vo"]
 IMPORTS = "From VF Require Import Base Show Gen_Errors Lexer Conv Run."
-ALLOWED_AXIOMS = []
+import vlib
+ALLOWED_AXIOMS = sorted(vlib.FLOCQ_AXIOMS)      # Flocq real-number development: the four standard-library axioms (DESIGN 4)
 PROFILES = ["debug", "release"]
 RULE = ("f32 and f64: every spelling of zero, halfway points between adjacent floats at many exponents (exact decimal expansion) and "
         "their neighbours 1e-20..1e-60 (relative) to either side, subnormal boundaries, powers of two, 17..40-digit mantissas, "
